@@ -152,8 +152,8 @@ class Prov:
 
     def _only_called(self, fn, name):
         """Every read of the local / parameter `name` in `fn` is as the callee of a call."""
-        callee_ids = {id(n.func) for n in walk_no_nested(fn) if isinstance(n, ast.Call)}
-        return all(id(n) in callee_ids for n in walk_no_nested(fn) if isinstance(n, ast.Name) and n.id == name and isinstance(n.ctx, ast.Load))
+        callee_ids = {id(n.func) for n in walk_fn(fn) if isinstance(n, ast.Call)}
+        return all(id(n) in callee_ids for n in walk_fn(fn) if isinstance(n, ast.Name) and n.id == name and isinstance(n.ctx, ast.Load))
 
     def _ref_escapes(self, ref, q):
         """A function name used as a value escapes unless the dataflow can follow it: a local alias that is only ever called, or an
@@ -181,11 +181,11 @@ class Prov:
             refs = {}
             for q, fn in self.cg.funcs.items():
                 callee_names = set()
-                for n in walk_no_nested(fn):
+                for n in walk_fn(fn):
                     if isinstance(n, ast.Call) and isinstance(n.func, ast.Name):
                         callee_names.add(id(n.func))
                 locals_ = self.cg.local_defs(q)
-                for n in walk_no_nested(fn):
+                for n in walk_fn(fn):
                     if isinstance(n, ast.Name) and isinstance(n.ctx, ast.Load) and id(n) not in callee_names:
                         tgt = locals_.get(n.id) or (n.id if n.id in self.facts.funcs else None)
                         if tgt and self._ref_escapes(n, q):
@@ -670,7 +670,7 @@ class Prov:
         idx = self.__dict__.setdefault('_growth', {})
         if id(fn) not in idx:
             tab = {}
-            for n in walk_no_nested(fn):
+            for n in walk_fn(fn):
                 if isinstance(n, ast.Call) and isinstance(n.func, ast.Attribute) and isinstance(n.func.value, ast.Name):
                     if n.func.attr in ('append', 'add') and n.args:
                         tab.setdefault(n.func.value.id, []).append(('elem', n.args[0]))
@@ -965,7 +965,7 @@ class Prov:
         """AST nodes in `qual` that mutate, in place, an object that may be the one bound to parameter `pname`."""
         fn = self.fn_of(qual)
         out = []
-        for n in walk_no_nested(fn):
+        for n in walk_fn(fn):
             if isinstance(n, ast.Call) and isinstance(n.func, ast.Attribute) and n.func.attr in LIST_MUTATORS:
                 if self.same_object(n.func.value, qual, pname):
                     out.append(n)
